@@ -44,8 +44,11 @@ BIN_THOROUGH = BIN_QUICK + [
   FAB(2, 2, 2, A_FIN=0, A_FINFIX=2, B_EDGES=edges(2, 2, lambda q, a, r: r == 1), B_START=0, B_STARTFIX=1),             # 10+6: A all 8 edges, start bits free, final {1}; B edges into state 1 only, start {0}, finals free
   FAB(2, 3, 1, A_START=0, A_STARTFIX=1, B_START=0, B_STARTFIX=1, B_FIN=4),                                       # 6+10: one letter, 2x3 states
 ]
+# two thorough queries the engine cannot decide (Reverse followed by GetCandidateTree: the set of alternatives of one pointer exceeds
+# --max-alts 2048): left out, stated under 'outside'
+def _undecided(c): return c.get('OP') == 7 and (c['NA'] == 4 or (c['NA'] == 3 and c['FA_NSYM'] == 2 and c.get('A_FINFIX') == 4))
 def ops(univ, which, **kw):
-    return [dict(u, OP=o, **kw) for u in univ for o in which]
+    return [c for c in (dict(u, OP=o, **kw) for u in univ for o in which) if not _undecided(c)]
 
 CHECKS = {
  'C10': {
@@ -53,7 +56,7 @@ CHECKS = {
   'explanation': 'ExplicitFiniteAut::Union (with translation maps, as the CLI), UnionDisjointStates, Intersection, Reverse, RemoveUnreachableStates, RemoveUselessStates and GetCandidateTree executed symbolically on every NFA (pair of NFAs) of the universe of the configuration (presence bit per edge, start bit and final bit per state, built through SetStateStart / AddTransition / SetStateFinal with the letters registered in the alphabet); the result is observed at the public observation point DumpToString(serializer, stateDict) with a serializer that decodes the AutDescription back into edge/start/final masks (results: independently of the state numbers the library chose - the names that occur are assigned to universe states in order of first occurrence, at most |Q_A|+|Q_B| resp. |Q_A|*|Q_B| resp. |Q_A| distinct states out of 8 dictionary names; operands: under their own numbers), and its language is compared by an independent subset-construction inclusion oracle (both directions) with the language the property demands: L(A) u L(B), L(A) n L(B) (textbook product on masks), the mirror language (transposed masks), L(A) for the two trimming operations, and for GetCandidateTree: subset of L(A) and empty iff L(A) is empty. Operands are checked to be unchanged. The thorough tier also applies the CLI switches -p / -s (trimming the operands first).',
   'bounds': {'quick': 'one-operand operations: all NFAs with 2 states x 2 letters (12 bits), 3 states x 1 letter (15), 2 states x 3 letters (16); two-operand operations: all pairs with 1+2 and 2+1 states x 2 letters, 2+2 x 1 letter, 1+1 x 3 letters (10..16 bits); every start/final combination (empty word, several start states, product states with one start component); Reverse followed by GetCandidateTree on the one-operand universes',
              'thorough': 'as quick plus 15..18-bit sub-universes of 3 states x 2 letters and 4 states x 1 letter (one operand), 16-bit sub-universes of 2+2 states x 2 letters and 2+3 states x 1 letter (two operands), and the quick universes with operands trimmed first by RemoveUnreachableStates / RemoveUselessStates (-p / -s)'},
-  'outside': 'more than 4 states per operand (6 product states), more than 3 letters, start symbols (every start state gets the same start symbol x; which start symbol a result prints is not checked), the Timbuk text produced by the real serializer, the translation maps returned by Union / Intersection, Complement/Reduce (not implemented)',
+  'outside': 'Reverse followed by GetCandidateTree on the 4-state x 1-letter and the full 3-state x 2-letter sub-universes (undecided by the engine: pointer alternatives exceed its limit; the two operations are decided there separately); more than 4 states per operand (6 product states), more than 3 letters, start symbols (every start state gets the same start symbol x; which start symbol a result prints is not checked), the Timbuk text produced by the real serializer, the translation maps returned by Union / Intersection, Complement/Reduce (not implemented)',
   'assumptions': ['start symbols (the nullary Timbuk rules that make a state a start state) carry no language meaning'],
   'harnesses': [
     # one entry per operation: own witness twin, own seeded fault (VS_SELFTEST_1 is operation specific), own translation validation
